@@ -57,6 +57,12 @@ SetMode(m) == /\ Can /\ mode' = m /\ Call(IF m = "C" THEN "compressed" ELSE "unc
 SetVerify(b) == /\ Can /\ verify' = b /\ Call("verify_version", b)
                 /\ UNCHANGED <<flags, prefix, interval, iname, admin, reqi, proto, local, mode>>
 
+\* setters the handshake does NOT depend on (relay options, time limit, socket option): they change nothing the ISI is made of -
+\* in particular the relay's passwords never reach the ISI's admin field
+OtherSetters == {"relay_select_host", "relay_spectator_password", "relay_admin_password", "relay_websocket", "connect_timeout", "tcp_nodelay"}
+SetOther(n, a) == /\ Can /\ Call(n, a)
+                  /\ UNCHANGED <<flags, prefix, interval, iname, admin, reqi, proto, local, mode, verify>>
+
 PrefixVals == {NoneV, SomeV(33)}
 Intervals == {NoneV, SomeV(250), SomeV(1000)}
 Names == {NoneV, SomeV(<<97, 98, 99>>)}
@@ -73,6 +79,7 @@ Next == \/ \E f \in FlagNames, on \in BOOLEAN : SetFlag(f, on)
         \/ UseTcp \/ UseUdp(TRUE) \/ UseUdp(FALSE) \/ UseRelay
         \/ \E m \in {"C", "U"} : SetMode(m)
         \/ \E b \in BOOLEAN : SetVerify(b)
+        \/ \E n \in OtherSetters, a \in {NoneV, SomeV(<<114, 115, 101, 99>>)} : SetOther(n, a)
 Spec == Init /\ [][Next]_vars
 
 \* the ISI the configuration must produce; LocalPort stands for the port of the configured local address
